@@ -55,6 +55,13 @@ Theorem C06_segments_total : forall rd shape off w, reads_valid shape rd ->
 Proof. exact slicers2segments_total. Qed.
 Print Assumptions C06_segments_total.
 
+(* predict_shape = the shape NumPy gives, for every index whose canonical form is valid *)
+Theorem C06_predict_shape_spec : forall ix shape c,
+  canonical_slicers true ix shape = Ok c -> ix_valid shape c ->
+  predict_shape ix shape = Ok (np_shape shape c).
+Proof. exact predict_shape_spec. Qed.
+Print Assumptions C06_predict_shape_spec.
+
 (* no read of calc_slicedefs leaves the array's extent [off, off + itemsize*size) and the
    segment lengths add up to the bytes of the block read (so neither ValueError guard of
    read_segments can fire on a long-enough file) — any rank, either order, any heuristic *)
